@@ -150,7 +150,7 @@ pub fn run(ctx: &Ctx) -> Report {
         &format!("programs[{}]", ctx.variant),
         "config (model menu x window x orientation x options x transport) x 1..8 in-bounds drawing calls; oracle = reference image through the geometric transform, all cells compared; non-trivial = >=1 pixel drawn, orientation/offset non-default, margins asymmetric; distinct by hash of the whole case",
     );
-    let n = ctx.cases(150_000, 4_000_000);
+    let n = ctx.cases(300_000, 6_000_000);
     run_generated(&mut sec, ctx.seed, n, ctx.workers, || strategy(gen::ConfigMenu::all_transports(), 8), check, sig);
     rep.sections.push(sec);
 
